@@ -18,11 +18,17 @@
 //!   cb <alonzo|babbage|conway> <legacy 0|1> F <fee> P <percentage> C <n> <value>^n R <value|-> T <total|->
 //!        `check_collaterals_assets` of the era alone (verif_hooks) on a synthesized body + UTxO set, compared with
 //!        Model/PhaseOneArith.collateralAlonzo / collateralBalance: reply `ok` | `err <Error>` | `panic`
+//!   ns <low|-> <upp|-> K <n> <key hash>^n S <m> <script>^m
+//!        `check_native_scripts` of Shelley-MA alone (hook `native_scripts_ok`) with key witnesses of the listed key hashes and the
+//!        validity bounds; scripts in prefix notation (`pk <hash>` `all <k> ..` `any <k> ..` `nk <n> <k> ..` `ib <slot>` `ih <slot>`);
+//!        compared with Model/NativeScript.checkNativeScripts: reply `ok true` | `ok false` | `panic`
+//!   nt <shelley|allegra|mary> <start|-> <ttl|-> S <m> <script>^m
+//!        a correctly signed transaction (one key-locked input, signer = key 100) whose witness set carries the scripts; validate_txs
 //!   bw <fixture> <kind>
 //!        Byron witness / address corner: `script-addr` `other-addr` (UTxO address of type 1 / 7 with a witness present),
 //!        `short-key` `long-key` `short-sig` `long-sig` (witness key / signature of another length), `txin-other`
 //!
-//! replies of mt / sv / fc / bw: `ok total` | `panic`. The Lean side (Streams/ValTotal.lean) states the demanded class `ok total`; what is
+//! replies of mt / sv / fc / nt / bw: `ok total` | `panic`. The Lean side (Streams/ValTotal.lean) states the demanded class `ok total`; what is
 //! *proved* about the modelled rules is in Props/C33.lean. `!viol` key = `panic <crate file> <message>`.
 use crate::fixtures::{self, params, synth, txparts, Fixture, InputRef, UtxoEntry};
 use crate::fw::*;
@@ -163,9 +169,13 @@ fn sval(v: &Val) -> synth::SValue { synth::SValue { multi: v.multi, coin: v.coin
 fn era_of(s: &str) -> Era { match s { "shelley" => Era::Shelley, "allegra" => Era::Allegra, "mary" => Era::Mary, "alonzo" => Era::Alonzo, "babbage" => Era::Babbage, _ => Era::Conway } }
 
 struct Coll { ins: Vec<Val>, ret: Option<Val>, total: Option<u64> }
+/// validity interval start (`None` = no key 8), TTL (`Some(None)` = no key 3; default `u64::MAX`), extra native scripts of the witness set
+#[derive(Default)]
+struct Extra { start: Option<u64>, ttl: Option<Option<u64>>, scripts: Vec<Vec<u8>> }
 
 /// the synthesized fixture, with legacy output forms and a collateral section spliced in where asked
-fn build_sv(era: &str, legacy: bool, ins: &[Val], outs: &[Val], fee: u64, mint: &Option<synth::Groups>, coll: &Option<Coll>) -> Fixture {
+fn build_sv(era: &str, legacy: bool, ins: &[Val], outs: &[Val], fee: u64, mint: &Option<synth::Groups>, coll: &Option<Coll>) -> Fixture { build_sv_x(era, legacy, ins, outs, fee, mint, coll, &Extra::default()) }
+fn build_sv_x(era: &str, legacy: bool, ins: &[Val], outs: &[Val], fee: u64, mint: &Option<synth::Groups>, coll: &Option<Coll>, x: &Extra) -> Fixture {
     let e = era_of(era);
     let t = synth::SynthTx {
         era: e,
@@ -179,7 +189,8 @@ fn build_sv(era: &str, legacy: bool, ins: &[Val], outs: &[Val], fee: u64, mint: 
     };
     let mut f = synth::build(&t);
     let post = matches!(e, Era::Babbage | Era::Conway);
-    if !(legacy && post) && coll.is_none() { return f; }
+    let plain_x = x.start.is_none() && x.ttl.is_none() && x.scripts.is_empty();
+    if !(legacy && post) && coll.is_none() && plain_x { return f; }
     // rebuild the body: same fields, outputs in the legacy array form and/or keys 13 (collateral), 16 (return), 17 (total)
     let network = f.env.network_id;
     let out_addr = synth::key_address(network, &synth::key(200));
@@ -187,7 +198,8 @@ fn build_sv(era: &str, legacy: bool, ins: &[Val], outs: &[Val], fee: u64, mint: 
         if post && !legacy { e.map(2).unwrap().u8(0).unwrap().bytes(addr).unwrap().u8(1).unwrap(); } else { e.array(2).unwrap().bytes(addr).unwrap(); }
         synth::put_value(e, &sval(v));
     };
-    let nfields = 4 + mint.is_some() as u64 + coll.as_ref().map(|c| 1 + c.ret.is_some() as u64 + c.total.is_some() as u64).unwrap_or(0);
+    let ttl: Option<u64> = match x.ttl { None => Some(u64::MAX), Some(t) => t };
+    let nfields = 3 + ttl.is_some() as u64 + x.start.is_some() as u64 + mint.is_some() as u64 + coll.as_ref().map(|c| 1 + c.ret.is_some() as u64 + c.total.is_some() as u64).unwrap_or(0);
     let mut b = Encoder::new(Vec::new());
     b.map(nfields).unwrap();
     b.u8(0).unwrap();
@@ -197,7 +209,8 @@ fn build_sv(era: &str, legacy: bool, ins: &[Val], outs: &[Val], fee: u64, mint: 
     b.u8(1).unwrap().array(outs.len() as u64).unwrap();
     for o in outs { put_out(&mut b, &out_addr, o); }
     b.u8(2).unwrap().u64(fee).unwrap();
-    b.u8(3).unwrap().u64(u64::MAX).unwrap();
+    if let Some(t) = ttl { b.u8(3).unwrap().u64(t).unwrap(); }
+    if let Some(st) = x.start { b.u8(8).unwrap().u64(st).unwrap(); }
     if let Some(m) = mint {
         b.u8(9).unwrap();
         let mv = synth::SValue { multi: true, coin: 0, groups: m.clone() };
@@ -219,12 +232,14 @@ fn build_sv(era: &str, legacy: bool, ins: &[Val], outs: &[Val], fee: u64, mint: 
     let signers = synth::default_signers(&t);
     let mut w = Encoder::new(Vec::new());
     let policies: Vec<u8> = { let mut p: Vec<u8> = mint.iter().flatten().map(|(p, _)| *p).collect(); p.dedup(); p };
-    w.map(1 + !policies.is_empty() as u64 + coll.is_some() as u64).unwrap();
+    let nscripts = policies.len() + x.scripts.len();
+    w.map(1 + (nscripts > 0) as u64 + coll.is_some() as u64).unwrap();
     w.u8(0).unwrap().array(signers.len() as u64).unwrap();
     for s in &signers { let k = synth::key(*s); w.array(2).unwrap().bytes(&k.pk).unwrap().bytes(k.sk.sign(txid.as_ref()).as_ref()).unwrap(); }
-    if !policies.is_empty() {
-        w.u8(1).unwrap().array(policies.len() as u64).unwrap();
+    if nscripts > 0 {
+        w.u8(1).unwrap().array(nscripts as u64).unwrap();
         for p in &policies { w.writer_mut().extend_from_slice(&synth::native_script(&synth::key(*p))); }
+        for sc in &x.scripts { w.writer_mut().extend_from_slice(sc); }
     }
     if coll.is_some() {
         // a Plutus v1 script in the witness set switches the collateral rules on (`presence_of_plutus_scripts`)
@@ -406,6 +421,57 @@ fn coll_text(c: &(Vec<Val>, Option<Val>, Option<u64>)) -> String {
     format!("C {} {} R {} T {}", c.0.len(), c.0.iter().map(show_val).collect::<Vec<_>>().join(" "), c.1.as_ref().map(show_val).unwrap_or("-".into()), c.2.map(|t| t.to_string()).unwrap_or("-".into()))
 }
 
+// ------------------------------------------------------------------------------------------------ native scripts
+
+use pallas_primitives::alonzo::NativeScript as NS;
+
+const NS_SEEDS: std::ops::RangeInclusive<u8> = 100..=107;
+fn seed_hash(s: u8) -> String { hex(pallas_crypto::hash::Hasher::<224>::hash(&synth::key(s).pk).as_ref()) }
+
+/// prefix notation -> script; `None` if malformed
+fn parse_ns(t: &[String], i: &mut usize) -> Option<NS> {
+    let tag = t.get(*i)?.clone();
+    *i += 1;
+    let mut num = |i: &mut usize| -> Option<u64> { let v = t.get(*i)?.parse().ok()?; *i += 1; Some(v) };
+    Some(match tag.as_str() {
+        "pk" => { let h = unhex(t.get(*i)?)?; *i += 1; NS::ScriptPubkey(<[u8; 28]>::try_from(h.as_slice()).ok()?.into()) }
+        "ib" => NS::InvalidBefore(num(i)?),
+        "ih" => NS::InvalidHereafter(num(i)?),
+        "all" | "any" => { let k = num(i)?; let mut l = vec![]; for _ in 0..k { l.push(parse_ns(t, i)?); } if tag == "all" { NS::ScriptAll(l) } else { NS::ScriptAny(l) } }
+        "nk" => { let n = num(i)?; let k = num(i)?; let mut l = vec![]; for _ in 0..k { l.push(parse_ns(t, i)?); } NS::ScriptNOfK(u32::try_from(n).ok()?, l) }
+        _ => return None,
+    })
+}
+fn parse_ns_list(t: &[String]) -> Option<Vec<NS>> {
+    if t.first()? != "S" { return None; }
+    let m: usize = t.get(1)?.parse().ok()?;
+    let mut i = 2;
+    let mut l = vec![];
+    for _ in 0..m { l.push(parse_ns(t, &mut i)?); }
+    if i == t.len() { Some(l) } else { None }
+}
+
+/// all six constructors; n-of-k with n = 0, n = k, n = k + 1, 1, anything; empty lists; time locks on, one before and one
+/// after the validity bounds; key hashes of signing and of non-signing keys
+fn gen_ns(g: &mut Gen, depth: u32, start: Option<u64>, ttl: Option<u64>, signers: &[u8]) -> String {
+    let leaf = depth == 0 || g.rng.chance(2, 5);
+    if leaf {
+        return match g.rng.below(5) {
+            0 | 1 => format!("pk {}", seed_hash(if g.rng.chance(2, 3) && !signers.is_empty() { *g.rng.pick(signers) } else { *g.rng.pick(&[104u8, 105, 106, 107]) })),
+            2 => { let b = start.unwrap_or(g.rng.range(0, 1000)); format!("ib {}", match g.rng.below(5) { 0 => b.saturating_sub(1), 1 => b.saturating_add(1), 2 => 0, 3 => u64::MAX, _ => b }) }
+            3 => { let b = ttl.unwrap_or(g.rng.range(0, 1000)); format!("ih {}", match g.rng.below(5) { 0 => b.saturating_sub(1), 1 => b.saturating_add(1), 2 => 0, 3 => u64::MAX, _ => b }) }
+            _ => match g.rng.below(3) { 0 => "all 0".to_string(), 1 => "any 0".to_string(), _ => format!("nk {} 0", g.rng.below(2)) },
+        };
+    }
+    let k = g.rng.range(1, 3);
+    let subs: Vec<String> = (0..k).map(|_| gen_ns(g, depth - 1, start, ttl, signers)).collect();
+    match g.rng.below(5) {
+        0 => format!("all {k} {}", subs.join(" ")),
+        1 => format!("any {k} {}", subs.join(" ")),
+        _ => { let n = match g.rng.below(6) { 0 | 1 => 0, 2 => k, 3 => k + 1, 4 => 1, _ => *g.rng.pick(&[2u64, u32::MAX as u64, u32::MAX as u64 - 1]) }; format!("nk {n} {k} {}", subs.join(" ")) }
+    }
+}
+
 pub fn generate(g: &mut Gen) {
     if let Err(w) = catch(|| generate_inner(g)) { eprintln!("valtotal generator panicked: {w}"); std::process::exit(101); }
 }
@@ -484,6 +550,20 @@ fn generate_inner(g: &mut Gen) {
             // the same collateral section in a whole, correctly signed transaction
             let one = Val { multi: false, coin: 10_000_000, groups: vec![] };
             ops.push(format!("sv {era} {} I 1 {} O 1 {} F {fee} M - {}", legacy as u8, show_val(&one), show_val(&Val { coin: 10_000_000 - fee, ..one.clone() }), coll_text(&c)));
+        }
+        // native scripts: the Shelley-MA rule alone against Model/NativeScript, and the same scripts in the witness set of a
+        // correctly signed transaction that passes every earlier rule
+        for _ in 0..g.rng.range(1, 2) {
+            let era = *g.rng.pick(&["shelley", "allegra", "mary"]);
+            let slot = fixtures::by_name(synth::base_fixture_name(era_of(era))).map(|f| f.env.block_slot).unwrap_or(1000);
+            let start = if era != "shelley" && g.rng.chance(2, 3) { Some(slot - g.rng.below(3).min(slot)) } else { None };
+            let ttl = if era == "shelley" || g.rng.chance(2, 3) { Some(slot + g.rng.below(3)) } else { None };
+            let m = g.rng.range(1, 2);
+            let signers = [100u8];
+            let scripts: Vec<String> = (0..m).map(|_| gen_ns(g, 3, start, ttl, &signers)).collect();
+            let opt = |o: Option<u64>| o.map(|v| v.to_string()).unwrap_or("-".into());
+            ops.push(format!("ns {} {} K 1 {} S {m} {}", opt(start), opt(ttl), seed_hash(100), scripts.join(" ")));
+            ops.push(format!("nt {era} {} {} S {m} {}", opt(start), opt(ttl), scripts.join(" ")));
         }
         if !col_fixtures.is_empty() && g.rng.chance(1, 2) {
             let name = &col_fixtures[(i + g.rng.below(col_fixtures.len() as u64) as usize) % col_fixtures.len()];
@@ -627,6 +707,32 @@ pub fn run_case(case: &Case, out: &mut Out) {
                     Ok(None) => out.reply("bad-op undecodable".into()),
                     Ok(Some(Ok(()))) => { out.cov("cb:accepted"); out.nontrivial(); out.ok(""); }
                     Ok(Some(Err(e))) => { out.cov(format!("cb:{e}")); out.nontrivial(); out.reply(format!("err {e}")); }
+                }
+            }
+            "ns" => {
+                let opt = |t: &str| if t == "-" { None } else { t.parse::<u64>().ok() };
+                let (low, upp) = (opt(&op[1]), opt(&op[2]));
+                let k: usize = op[4].parse().unwrap_or(0);
+                let hashes = &op[5..5 + k];
+                let keys: Vec<pallas_primitives::alonzo::VKeyWitness> = NS_SEEDS.filter(|s| hashes.contains(&seed_hash(*s))).map(|s| pallas_primitives::alonzo::VKeyWitness { vkey: synth::key(s).pk.clone().into(), signature: vec![0u8; 64].into() }).collect();
+                let Some(scripts) = parse_ns_list(&op[5 + k..]) else { out.reply("bad-op".into()); continue };
+                out.cov("ns");
+                match catch(|| pallas_validate::phase1::shelley_ma::verif_hooks::native_scripts_ok(&keys, &scripts, &low, &upp)) {
+                    Err(w) => { out.viol(panic_key(&w), format!("{}: panicked at {w}", op.join(" "))); out.panic(); }
+                    Ok(b) => { out.cov(format!("ns:{b}")); out.nontrivial(); out.ok(if b { "true" } else { "false" }); }
+                }
+            }
+            "nt" => {
+                let opt = |t: &str| if t == "-" { None } else { t.parse::<u64>().ok() };
+                let era = op[1].as_str();
+                let Some(scripts) = parse_ns_list(&op[4..]) else { out.reply("bad-op".into()); continue };
+                let x = Extra { start: opt(&op[2]), ttl: Some(opt(&op[3])), scripts: scripts.iter().map(|s| minicbor::to_vec(s).unwrap()).collect() };
+                let one = Val { multi: false, coin: 10_000_000, groups: vec![] };
+                let built = catch(|| build_sv_x(era, false, &[one.clone()], &[Val { coin: 9_600_000, ..one.clone() }], 400_000, &None, &None, &x));
+                out.cov(format!("nt:{era}"));
+                match built {
+                    Err(w) => out.reply(format!("bad-op harness-panic {}", w.replace(' ', "_"))),
+                    Ok(f) => report(out, &op.join(" "), run_scenario(&f)),
                 }
             }
             "bw" => {
